@@ -160,7 +160,7 @@ def pair_def(lab, prd):
     a, b, i = z3.Ints("pc_a pc_b pc_i")
     return z3.ForAll([a, b, i], z3.And(PAIR(lab, prd, a, b, 0) == 0, z3.Implies(
         i >= 0, PAIR(lab, prd, a, b, i + 1) == PAIR(lab, prd, a, b, i) + z3.If(z3.And(lab[i] == a, prd[i] == b), 1, 0))),
-        patterns=[PAIR(lab, prd, a, b, i + 1)])
+        patterns=[PAIR(lab, prd, a, b, i + 1), z3.MultiPattern(PAIR(lab, prd, a, b, i), z3.Select(lab, i))])
 
 
 def cm_requires(v):
@@ -198,7 +198,9 @@ def err_defs(lab, prd):
         z3.Implies(i >= 0, z3.And(
             FPc(lab, prd, c, i + 1) == FPc(lab, prd, c, i) + z3.If(z3.And(prd[i] == c, lab[i] != c), 1, 0),
             FNc(lab, prd, c, i + 1) == FNc(lab, prd, c, i) + z3.If(z3.And(lab[i] == c, prd[i] != c), 1, 0)))),
-        patterns=[FPc(lab, prd, c, i + 1), FNc(lab, prd, c, i + 1)])
+        patterns=[FPc(lab, prd, c, i + 1), FNc(lab, prd, c, i + 1),
+                  z3.MultiPattern(FPc(lab, prd, c, i), z3.Select(lab, i)),
+                  z3.MultiPattern(FNc(lab, prd, c, i), z3.Select(lab, i))])
 
 
 def acc_summand(v, c):
